@@ -23,14 +23,18 @@ LLM_MSG = re.compile(r"L[0-9]+x[0-9]+(?:y[0-9a-f]+)?z")
 
 
 def llm_message_of(case, turn, ob):
-    """The LLM-generated bot message of the turn (None when the turn has none): the scripted
-    completion that carries an L-marker, provided the implementation made that LLM call."""
+    """The LLM-/action-generated bot message of the turn (None when the turn has none): the text the
+    scripted custom action returned (`$answer = execute rag` / `bot $answer`), or the scripted
+    completion that carries an L-marker - provided the implementation made that call."""
+    for o in ob["obs"]:
+        if o[0] == "A":
+            return o[2], ob["obs"].index(o)
     n_calls = sum(1 for o in ob["obs"] if o[0] == "L")
     for i, comp in enumerate(turn.get("llm", [])):
         m = LLM_MSG.search(comp)
         if m and i < n_calls:
-            return m.group(0)
-    return None
+            return m.group(0), max(j for j, o in enumerate(ob["obs"]) if o[0] == "L")
+    return None, None
 
 
 def oracle(case, observed):
@@ -43,12 +47,10 @@ def oracle(case, observed):
             break
         obs = ob["obs"]
         reply = ob["reply"]
-        m = llm_message_of(case, turn, ob)
-        ocalls = [(o[1], o[2]) for o in obs if o[0] == "O"]
+        m, produced_at = llm_message_of(case, turn, ob)
         if m is not None:
-            # calls on the LLM message: those after the LLM call that produced it
-            last_l = max(i for i, o in enumerate(obs) if o[0] == "L")
-            ocalls_m = [(o[1], o[2]) for o in obs[last_l + 1:] if o[0] == "O"]
+            # calls on the message: those after the LLM / action call that produced it
+            ocalls_m = [(o[1], o[2]) for o in obs[produced_at + 1:] if o[0] == "O"]
             exp, final, rej = D.expected_rail_calls(turn["ov"], m, rewriting=(ver == "v1"))
             if ocalls_m != exp:
                 if ver == "v2" and flag_was_set:
